@@ -28,6 +28,7 @@ type TierSpec struct {
 	Preempt   int           `json:"preempt"`
 	PermLimit int           `json:"perm_limit"`
 	PoolAdv   bool          `json:"pool_adversarial"`
+	LockCheck bool          `json:"lock_check"`
 	MaxAlloc  int           `json:"max_alloc"`
 }
 
@@ -368,6 +369,7 @@ func runCheck(id, tier string) int {
 	}
 	sh.preempt = ts.Preempt
 	sh.poolAdversarial = ts.PoolAdv
+	sh.lockCheck = ts.LockCheck
 	var targets []*ssa.Package
 	for _, pd := range spec.Pkgs {
 		if p := sh.spkgs[pkgPathOf(pd)]; p != nil {
@@ -485,6 +487,7 @@ func runCheck(id, tier string) int {
 	}
 	// classify violations
 	exit := 0
+	kfPrinted := map[string]bool{}
 	var sampleViol []map[string]interface{}
 	nviol := 0
 	for _, vr := range viols {
@@ -529,7 +532,10 @@ func runCheck(id, tier string) int {
 			continue
 		}
 		if isKnown {
-			fmt.Printf("KNOWN-FINDING: property=%s %s [%s/%s]\n", id, what, v.Harness, v.Label)
+			if !kfPrinted[v.Harness+"/"+v.Label] {
+				kfPrinted[v.Harness+"/"+v.Label] = true
+				fmt.Printf("KNOWN-FINDING: property=%s %s [%s/%s]\n", id, what, v.Harness, v.Label)
+			}
 			sv["outcome"] = "KNOWN-FINDING"
 			sampleViol = append(sampleViol, sv)
 			continue
@@ -707,6 +713,7 @@ func runDev(args []string) int {
 		sh.permLimit = v
 	}
 	sh.poolAdversarial = os.Getenv("VERIF_POOLADV") != ""
+	sh.lockCheck = os.Getenv("VERIF_LOCKCHECK") != ""
 	sh.known = map[string]bool{}
 	for _, l := range strings.Split(os.Getenv("VERIF_KNOWN"), ",") {
 		if l != "" {
